@@ -398,6 +398,29 @@ pub(crate) fn ct_array32_maybe_set<const N: usize>(a: &mut [i32; N], b: &[i32; N
     }
 }
 
+/// verification hooks: public wrappers of the crate-private masked swap / assign helpers
+#[cfg(cryptoxide_verif)]
+#[allow(missing_docs)]
+pub mod verif {
+    use super::Choice;
+
+    pub fn choice(b: bool) -> Choice {
+        Choice(b as u64)
+    }
+    pub fn array64_maybe_swap_with<const N: usize>(a: &mut [u64; N], b: &mut [u64; N], c: Choice) {
+        super::ct_array64_maybe_swap_with(a, b, c)
+    }
+    pub fn array32_maybe_swap_with<const N: usize>(a: &mut [i32; N], b: &mut [i32; N], c: Choice) {
+        super::ct_array32_maybe_swap_with(a, b, c)
+    }
+    pub fn array64_maybe_set<const N: usize>(a: &mut [u64; N], b: &[u64; N], c: Choice) {
+        super::ct_array64_maybe_set(a, b, c)
+    }
+    pub fn array32_maybe_set<const N: usize>(a: &mut [i32; N], b: &[i32; N], c: Choice) {
+        super::ct_array32_maybe_set(a, b, c)
+    }
+}
+
 #[cfg(test)]
 mod tests {
     use super::*;
